@@ -471,7 +471,13 @@ func genHist(id int) O {
 		}
 		switch rng.Intn(6) {
 		case 5: // something the captain cannot execute: not an operation at all, or a malformed one
-			switch rng.Intn(3) {
+			switch rng.Intn(5) {
+			case 3, 4: // the crew's own machines cannot be deleted (a crew rebuilt from the store always has them)
+				del := []interface{}{pickS([]string{"captain", "timers"})}
+				if rng.Intn(3) == 0 {
+					del = append([]interface{}{pickS(mids)}, del...)
+				}
+				h.Msgs = append(h.Msgs, map[string]interface{}{"id": newID("op"), "to": "captain", "delete": del})
 			case 0:
 				h.Msgs = append(h.Msgs, map[string]interface{}{"id": newID("m"), "to": "captain", "note": "not an op"})
 			case 1:
